@@ -30,7 +30,7 @@ ASSUMPTIONS = [
     "the termination claim can only be refuted, not established: the watchdog turns a > 120 s call into a violation",
 ]
 
-ALPHA = "\t\t\t\n: *$+-,;01259HSLCPEFGOUX#MIDNacgtxyZzABJf[]{}\"'.=_\r\x00\x7fé５~!"
+ALPHA = "\t\t\t\n: *$+-,;01259HSLCPEFGOUX#MIDNacgtxyZzABJf[]{}\"'.=_\r\x00\x7fé５²٣~!"
 COLLECT = bool(os.environ.get("VERIF_C07_COLLECT"))
 
 
@@ -163,7 +163,7 @@ def prop_text(case):
 def mutate_text(r, text, k):
     lines = text.split("\n")
     for _ in range(k):
-        m = r.randrange(9)
+        m = r.randrange(10)
         if not lines:
             lines = [""]
         i = r.randrange(len(lines))
@@ -221,11 +221,23 @@ def mutate_text(r, text, k):
                 lines.pop(i)
                 lines.insert(r.randint(0, len(lines)), ln)
                 continue
+        elif m == 9:  # reuse an identifier of another line (as a field or as an ID tag)
+            idents = [x.split("\t")[1] for x in lines if x.count("\t") >= 1 and x.split("\t")[1] not in ("", "*")]
+            if idents:
+                ident = gen.choice(r, idents)
+                f = ln.split("\t")
+                if gen.chance(r, 0.5) and len(f) > 1:
+                    f[r.randrange(1, len(f))] = ident
+                else:
+                    f.append("ID:Z:" + ident)
+                ln = "\t".join(f)
         else:  # replace a whole field by special content
             f = ln.split("\t")
             p = r.randrange(len(f))
             f[p] = gen.choice(r, ["*", "", "$", "0$", "-1", "+", ",", "1,2", "*,*", "a+,", ",+", "{", "[1,", "1e999", "0M",
-                                  "99999999999999999999", "A+ B-", "x" * 300, "５", "xx:i:1", "co:Z:GFAPY_virtual_line"])
+                                  "99999999999999999999", "A+ B-", "x" * 300, "５", "²", "٣", "xx:i:1", "co:Z:GFAPY_virtual_line",
+                                  "1M", "1M,1M,1M,1M", "*,*,*", "xx:J:" + "[" * 1500 + "]" * 1500, "xx:J:" + "{\"a\":" * 1200 + "1" + "}" * 1200,
+                                  "A+,B+,A+,B+,A+"])
             ln = "\t".join(f)
         if i < len(lines):
             lines[i] = ln
